@@ -107,6 +107,54 @@ CHECKS = {
              'result of <parser>_end and the actions it runs are compared with the Lang end-of-input step; END is in no data class and `end` matches no byte (NmfuRegex); the C _end of every state is swept against the machine.',
         note='Permissive at OP1/OP4 (trailing lookahead constructs, strict-done): there FAIL is admitted where the program has logically ended.',
         technique='TLC product with end-of-input as a symbol + single-step sweeps of _end', thorough=True),
+    'C09': dict(
+        category='model_checking', design_ref='6/C09',
+        text='LangMC.tla: for every generated program the real compiler ACCEPTED (statement pairs A;B with lookahead-terminated A, greedy cases with shared finishing strings and drawn priorities, case pattern sets, '
+             'general programs), TLC explores the TLA+ source semantics over all symbol cells and evaluates the language-theoretic predicate Ambiguous at every reachable decision point and every next symbol '
+             '(derivative sets for clause patterns, strong first sets over the continuation stack for "what follows"); priority ties are detected at the decision itself.',
+        note='Direction accepted => unambiguous only (the compiler may reject more). else clauses, wait skipping and handlers are fall-backs, not competing continuations (OP3). Length-bounded over sampled programs.',
+        technique='TLC exploration of TLA+ source semantics with a language-theoretic ambiguity predicate', thorough=True),
+    'C11': dict(
+        category='other', design_ref='6/C11',
+        text='Rows of a covering array (pairs quick, triples thorough) over 15 code-generation flags/options are replayed through the real compiler for programs covering every output type, action and node kind. '
+             'gcc -std=c99/-std=c11 -Wall -Werror -Wno-unused-label on the source and g++ on a header-only translation unit (also included twice) decide validity; the symbol table extracted from every header is '
+             'validated by TLC against ApiSpec.tla (start/feed always, end iff EOF support, free iff dynamic memory, hooks as prototypes or members, one enumerator per declared code); verdicts must not depend on the row.',
+        note='Validity of C text is decided by gcc/g++ acting as the replay oracle, not by TLA+; the TLA+ part decides which API must exist for each resolved configuration. Covering array, not all subsets. '
+             'Warnings about the user\'s own expressions (-Wtautological-compare, -Wbool-compare) are excluded.',
+        technique='covering-array replay + gcc/g++ oracle + TLC validation of header symbol tables against a TLA+ API spec', thorough=True),
+    'C13': dict(
+        category='model_checking', design_ref='6/C13',
+        text='The generator emits, from one AST, a program using macros (nested calls; macro, hook, out, match, expr, loop, finishcode arguments; swap-style calls whose argument names coincide with parameter names) '
+             'and its hand-inlined twin. Equiv.tla without slack: the two compiled machines must agree on every event, status and output for all inputs explored; Conform.tla: the macro machine against the Lang reading of the inlined AST; '
+             'compiler verdicts must agree; wrong arity / wrong kind calls must be diagnosed.',
+        note='Macro families are templates with random parameters; yieldcode arguments are not generated.',
+        technique='TLC bisimulation (no slack) of macro vs hand-inlined machine + Conform', thorough=True),
+    'C14': dict(
+        category='model_checking', design_ref='6/C14',
+        text='Random typed expression trees (all operators and atoms) are printed with minimal parentheses into assignment / character-append / conditional-action / condition-point positions and compiled by the real compiler. '
+             'In the exported machine the expression is replaced by the generator\'s own tree; StepTrace then validates the C binary against NmfuExpr.Eval (C semantics: promotion, usual arithmetic conversions, truncating division, '
+             'short-circuit logic, store conversion, bounds-checked indexing) from forced operand contexts and 22 values of $last. A smaller set also goes through Conform.',
+        note='Values beyond signed 32 bits (unsigned 32-bit wrap-around, 64-bit) are outside the TLC integer model: such steps are skipped and counted. Undefined C evaluations are skipped (a driver-side SIGFPE guard keeps the recorder alive).',
+        technique='TLC trace validation of C against a TLA+ C-arithmetic evaluator on generator-owned expression trees', thorough=True),
+    'C15': dict(
+        category='model_checking', design_ref='6/C15',
+        text='The generator chooses byte strings / values and spells them (escapes, raw characters, hex pairs, char constants, decimal/hex/binary integers); the Lang program keeps the intended bytes. Conform.tla decides through the real front end '
+             'that matches accept exactly those bytes (case-insensitive: either ASCII case) and fail at the first differing byte, and that assignments, defaults and constants hold exactly those bytes/values; single-step sweeps bind the emitted C. '
+             'Every byte 0..255 appears in match, casei match, binary match, assignment and default position.',
+        note='Multi-byte literals are sampled; regex-literal bytes are limited to printable characters.',
+        technique='TLC product (Conform) on generator-spelled literals + single-step sweeps of emitted C', thorough=True),
+    'C18': dict(
+        category='exploration', design_ref='6/C18',
+        text='Every compile call of the run (a catalogue of 70 one-rule-at-a-time edge cases, random mutations of generated programs, all generator families, the corpus incl. *.fail.nmfu) is recorded and validated by TLC against '
+             'CompileTrace.tla, whose alphabet of outcomes is {code, diagnosed error with renderable message} and {diagnosed} alone where the static rules require a diagnosis; internal exceptions, unrenderable errors and time-outs are rejected.',
+        note='The quantifier over all sources is sampled (exploration); per-compilation limit 90 s.',
+        technique='TLC trace validation of compile events against an outcome-alphabet spec', thorough=True),
+    'C20': dict(
+        category='model_checking', design_ref='6/C20',
+        text='Each program is compiled alone in a fresh process (PYTHONHASHSEED=0), in fresh processes with other hash seeds, after unrelated compilations with garbage objects kept alive, twice in a row, and in one long-lived process; '
+             'verdicts must be identical and every machine must be observationally equivalent to the reference - decided by TLC bisimulation (Equiv.tla, no slack), never by comparing emitted text.',
+        note='Address-dependent behaviour is probed by perturbation, not enumerated.',
+        technique='TLC bisimulation of machines from perturbed compilation histories', thorough=True),
 }
 
 NOT_YET = 'check not built yet in this session (specification work in progress); see DESIGN.md section 12'
